@@ -416,38 +416,23 @@ structure KTab where
   idx : Key → Nat
   ctx : Key → Key
   world : World
-  entries : List (Key × Nat × Ghost)   -- context, model row of its first key, specification state
-  fresh : Ghost              -- specification state of a context no keyed call has touched
-
-def globalLOp : KOp Key → LOp
-  | .syncAll => .sync
-  | .reset => .reset
-  | .ctor b => .ctor b
-  | _ => .nop
-
-def keyOf : KOp Key → Option Key
-  | .record k _ _ => some k
-  | .sync k => some k
-  | .syncAt _ k => some k
-  | _ => none
+  /-- specification state per context: `AITB.Exp.Oracle` (proved equal to the ghost of the context projection: `oracle_sound`) -/
+  oracle : Oracle Key
+  /-- context → the model row of the first key seen with that context (only used to attribute the rows of whole-table dumps) -/
+  rows : List (Key × Nat)
 
 def KTab.step (cfg : Cfg) (t : KTab) (op : KOp Key) : KTab :=
-  let es := match keyOf op with
-    | some k => if t.entries.any (fun e => e.1 == t.ctx k) then t.entries else t.entries ++ [(t.ctx k, t.idx k, t.fresh)]
-    | none => t.entries
-  { t with world := t.world.step cfg (op.toOp t.idx),
-           entries := es.map (fun e => (e.1, e.2.1, e.2.2.step (op.ctxProject t.ctx e.1))),
-           fresh := t.fresh.step (globalLOp op) }
+  let rows := match op.key? with
+    | some k => if t.rows.any (fun e => e.1 == t.ctx k) then t.rows else t.rows ++ [(t.ctx k, t.idx k)]
+    | none => t.rows
+  { t with world := t.world.step cfg (op.toOp t.idx), oracle := t.oracle.step t.ctx op, rows := rows }
 
-def KTab.ghostOf (t : KTab) (k : Key) : Ghost :=
-  match t.entries.find? (fun e => e.1 == t.ctx k) with
-  | some e => e.2.2
-  | none => t.fresh
+def KTab.ghostOf (t : KTab) (k : Key) : Ghost := t.oracle.ghostOf (t.ctx k)
 
 def KTab.ghostAtRow (t : KTab) (j : Nat) : Ghost :=
-  match t.entries.find? (fun e => e.2.1 == j) with
-  | some e => e.2.2
-  | none => t.fresh
+  match t.rows.find? (fun e => e.2 == j) with
+  | some e => t.oracle.ghostOf e.1
+  | none => t.oracle.fresh
 
 def KTab.pair (t : KTab) (j : Nat) : Pair := t.world.pairs.getD j default
 
@@ -612,7 +597,7 @@ def coophist : P String := do
   let cfg := cfgPlain junk
   let tabs := (List.range nf).map (fun i =>
     ({ expC := "CooperativeExperience", modC := "CooperativeMaximumLikelihoodModel", w := g.S.getD i 0, size := sizes.getD i 0,
-       idx := coopIdx g i, ctx := ctxOf g i, world := World.init (g.getSize i) (g.S.getD i 0) (fun _ => 0), entries := [], fresh := Ghost.init } : KTab))
+       idx := coopIdx g i, ctx := ctxOf g i, world := World.init (g.getSize i) (g.S.getD i 0) (fun _ => 0), oracle := Oracle.init, rows := [] } : KTab))
   let v0 : Verdict := {}
   let v0 := v0.diffIf (sizes != (List.range nf).map g.getSize) s!"DDNGraph.getSize model={(List.range nf).map g.getSize} impl={sizes}"
   let st0 : CSt := { g := g, cfg := cfg, tabs := tabs, ts := 0, opIdx := 0, v := v0 }
@@ -667,7 +652,7 @@ def fbhist : P String := do
   let tabs := (deps.zip sizes).map (fun ds =>
     ({ expC := "Factored::Bandit::Experience", modC := "none", w := 0, size := ds.2,
        idx := fun k => fbIdx A ds.1 k.2, ctx := fun k => (fbCtx ds.1 k.2, []),
-       world := World.init (AITB.Factored.spacePartial ds.1 A) 0 (fun _ => 0), entries := [], fresh := Ghost.init } : KTab))
+       world := World.init (AITB.Factored.spacePartial ds.1 A) 0 (fun _ => 0), oracle := Oracle.init, rows := [] } : KTab))
   let want := deps.map (fun d => AITB.Factored.spacePartial d A)
   let v0 : Verdict := {}
   let v0 := v0.diffIf (sizes != want) s!"factorSpacePartial model={want} impl={sizes}"
